@@ -324,6 +324,9 @@ def obligations(tier, seed):
         out.append(R.decide(name + ":no-panic", "kernel", z3.Or(*panics) if panics else z3.BoolVal(False), reach,
                             desc="no overflow / unwrap panic for any ids", bounds="as above", keydetail="panic", **common))
     out += ws_front_obligations(core, (2, 3) if tier == "quick" else (1, 2, 3, 4))
+    # a reply that lacks an entry must not be taken for the reply to another batch in flight: the ids of a batch are not handed out again
+    from .C03 import batch_id_obligations
+    out += batch_id_obligations(core)
     seen = set()
     for r_ in out:
         if r_.get("status") == "violated" and r_.get("key"):
